@@ -78,6 +78,7 @@ fn fixture(trading: bool, link0: Option<LinkS>) -> Spec {
         None => vec![LinkS::Open, LinkS::Open], // the request under test names exchange index 7
     };
     Spec {
+        exset: 0,
         trading,
         links,
         instruments: vec![
@@ -225,6 +226,7 @@ fn table_middle(em: &mut Emitter) {
     for middle in [LinkS::Missing, LinkS::Closed, LinkS::Unhealthy] {
         for (pi, path) in ["algo", "command", "action", "cancel_orders", "close_default"].iter().enumerate() {
             let mut s = Spec {
+                exset: (pi % 3) as u8,
                 trading: pi == 0,
                 links: vec![LinkS::Open, middle, LinkS::Open],
                 instruments: (0..3)
@@ -300,7 +302,7 @@ fn gen_open(r: &mut Rng, sh: &mut Shadow, ly: &Layout, adversarial: bool) -> Ope
         sh.cids[inst].push(cid);
     }
     let mut o = open(pick_ex(r, ly, inst, adversarial), inst, cid);
-    o.qty = 2500 * (1 + r.below(8) as i64);
+    o.qty = 2500 * r.below(9) as i64; // zero-quantity orders included
     o.kind = r.below(2) as u8;
     o.tif = r.below(5) as u8;
     o
@@ -327,6 +329,19 @@ fn gen_batch(r: &mut Rng, sh: &mut Shadow, ly: &Layout, adversarial: bool) -> (V
         if !os.is_empty() && r.chance(1, 3) {
             let o = r.pick(&os).clone();
             cs.push(CancelS { key: o.key.clone(), id: None });
+        }
+        // the same client order id on two DIFFERENT instruments inside one batch
+        if ly.inst_ex.len() > 1 && !os.is_empty() && r.chance(1, 3) {
+            let mut o = r.pick(&os).clone();
+            o.key.inst = (o.key.inst + 1) % ly.inst_ex.len();
+            o.key.ex = ly.inst_ex[o.key.inst];
+            os.push(o);
+        }
+        if ly.inst_ex.len() > 1 && !cs.is_empty() && r.chance(1, 3) {
+            let mut c = r.pick(&cs).clone();
+            c.key.inst = (c.key.inst + 1) % ly.inst_ex.len();
+            c.key.ex = ly.inst_ex[c.key.inst];
+            cs.push(c);
         }
     }
     (cs, os)
@@ -411,13 +426,14 @@ fn gen_snap(r: &mut Rng, cid: u32) -> SnapS {
         3 => SnapS::OpenFailed(r.below(10) as u8),
         4 => SnapS::Oif,
         5 => SnapS::Cif(if r.chance(1, 2) { None } else { Some(meta(100 + cid, pick_time(r), 0)) }),
-        _ => SnapS::Open(meta(100 + cid, pick_time(r), *r.pick(&[0, 0, 5_000, 20_000]))),
+        // filled may exceed the order quantity (slightly / far): the code keeps such an order tracked
+        _ => SnapS::Open(meta(100 + cid, pick_time(r), *r.pick(&[0, 0, 5_000, 20_000, 20_001, 1_000_000]))),
     }
 }
 fn gen_snapshot_order(r: &mut Rng, sh: &mut Shadow, ly: &Layout, inst: usize) -> (OrderS, SnapS) {
     let cid = pick_cid(r, sh, inst);
     let mut o = order(ly.inst_ex[inst], inst, cid, StS::Oif);
-    o.qty = 20_000;
+    o.qty = *r.pick(&[20_000, 20_000, 20_000, 0]);
     let snap = gen_snap(r, cid);
     if matches!(snap, SnapS::Open(_) | SnapS::Oif | SnapS::Cif(_)) && !sh.cids[inst].contains(&cid) {
         sh.cids[inst].push(cid);
@@ -450,7 +466,7 @@ fn gen_event(r: &mut Rng, sh: &mut Shadow, ly: &Layout, adversarial: bool) -> (E
             EvS::Trade {
                 inst,
                 buy: r.chance(1, 2),
-                qty: 5_000 * (1 + r.below(4) as i64),
+                qty: 5_000 * r.below(5) as i64, // zero-quantity fills included
                 price: 1_000_000 + 2500 * r.below(20) as i64,
                 fee: r.below(3) as i64 * 100,
             },
@@ -519,8 +535,9 @@ fn gen_history(r: &mut Rng, max_steps: u64, adversarial: bool) -> Spec {
             pos: match r.below(3) {
                 0 => None,
                 k => {
-                    let q = 5_000 * (1 + r.below(4) as i64);
-                    Some(PosS { buy: k == 1, qty: q, qty_max: q + 5_000 })
+                    // zero-size and (adversarial) negative-size positions included
+                    let q = if adversarial && r.chance(1, 8) { -5_000 } else { 5_000 * r.below(5) as i64 };
+                    Some(PosS { buy: k == 1, qty: q, qty_max: q.abs() + 5_000 })
                 }
             },
             last: if r.chance(2, 3) { Some((pick_time(r), 2500 * (390 + r.below(20) as i64))) } else { None },
@@ -561,7 +578,7 @@ fn gen_history(r: &mut Rng, max_steps: u64, adversarial: bool) -> Spec {
             steps.push(last);
         }
     }
-    Spec { trading: r.chance(2, 3), links, instruments, steps }
+    Spec { exset: r.below(3) as u8, trading: r.chance(2, 3), links, instruments, steps }
 }
 
 fn main() {
